@@ -15,7 +15,7 @@ from fiddle._src import config as cfglib
 from vf import model as M
 from vf.common import safe_repr
 from vt import kinds, sigs
-from vt.rec import Sentinel
+from vt.rec import Amb, Sentinel
 
 ID = 'C03'
 LEVEL = 'exploration'
@@ -49,6 +49,12 @@ EXTRA_FNS = sigs.WIDE + [kinds.PosInit, kinds.DC, kinds.DCKwOnly, kinds.NewOnly,
 
 def all_fns():
   return list(sigs.ALL) + EXTRA_FNS
+
+
+def V(cnt):
+  """The next argument value: a Sentinel, every seventh one an Amb (== has no truth value)."""
+  n = next(cnt)
+  return Amb(n) if n % 7 == 3 else Sentinel(n)
 
 
 def plan(tier):
@@ -136,7 +142,10 @@ def compare_state(cfg, m, rng, acc):
   if prob:
     return 'storage format: ' + prob
   # the public reporting API, under the default flags and one other combination
+  has_amb = any(isinstance(v, Amb) for v in list(view) + list(named.values()))
   for flags in (FLAG_SETS[0], rng.choice(FLAG_SETS)):
+    if has_amb and not flags.get('include_equal_to_default', True):
+      continue       # documented to compare values with their defaults using ==
     try:
       got = list(cfglib.ordered_arguments(cfg, **flags).items())
     except Exception as e:  # pylint: disable=broad-except
@@ -166,12 +175,12 @@ def gen_op(rng, m: M.ArgModel, cnt, names):
                      'setslice', 'getslice', 'delslice', 'setslice', 'delslice'])
   if kind in ('setattr', 'getattr', 'delattr'):
     nm = rng.choice(names)
-    return (kind, nm, Sentinel(next(cnt))) if kind == 'setattr' else (kind, nm)
+    return (kind, nm, V(cnt)) if kind == 'setattr' else (kind, nm)
   if kind in ('setidx', 'getidx', 'delidx'):
     i = rng.randint(-L - 2, L + 2)
     if rng.random() < 0.1 and m.has_va:
       i = VAR
-    return (kind, i, Sentinel(next(cnt))) if kind == 'setidx' else (kind, i)
+    return (kind, i, V(cnt)) if kind == 'setidx' else (kind, i)
   bounds = [None, None] + list(range(-L - 1, L + 2)) + ([VAR, VAR] if m.has_va else [])
   a, b = rng.choice(bounds), rng.choice(bounds)
   s = rng.choice([None, None, 1, 2, -1, -2])
@@ -180,7 +189,7 @@ def gen_op(rng, m: M.ArgModel, cnt, names):
     k = len(range(*slice(a_, b_, s).indices(L))) + rng.choice([0, 0, 0, 1, -1, 2])
     if rng.random() < 0.05:
       k = 0
-    vs = [Sentinel(next(cnt)) for _ in range(max(k, 0))]
+    vs = [V(cnt) for _ in range(max(k, 0))]
     return (kind, a, b, s, vs)
   return (kind, a, b, s)
 
@@ -336,15 +345,15 @@ def initial(rng, fn, cnt):
   if rng.random() < 0.5:
     # constructor arguments
     npos = rng.randint(0, m.n + (2 if m.has_va else 0))
-    args = [Sentinel(next(cnt)) for _ in range(npos)]
+    args = [V(cnt) for _ in range(npos)]
     for p in m.P[npos:]:
       if p.kind == p.POSITIONAL_OR_KEYWORD and rng.random() < 0.4:
-        kwargs[p.name] = Sentinel(next(cnt))
+        kwargs[p.name] = V(cnt)
     for p in m.KO:
       if rng.random() < 0.5:
-        kwargs[p.name] = Sentinel(next(cnt))
+        kwargs[p.name] = V(cnt)
     if m.has_vk and rng.random() < 0.4:
-      kwargs['extra'] = Sentinel(next(cnt))
+      kwargs['extra'] = V(cnt)
   cfg = fdl.Config(fn, *args, **kwargs)
   m.bind(args, kwargs)
   return cfg, m, (len(args), sorted(kwargs))
@@ -401,12 +410,12 @@ def sweep_alphabet(m):
   cnt = itertools.count(5000)
   names = list(m.sig.parameters) + ['zz']
   for nm in names:
-    yield ('setattr', nm, Sentinel(next(cnt)))
+    yield ('setattr', nm, V(cnt))
     yield ('getattr', nm)
     yield ('delattr', nm)
   idxs = list(range(-L - 2, L + 3)) + ([VAR] if m.has_va else [])
   for i in idxs:
-    yield ('setidx', i, Sentinel(next(cnt)))
+    yield ('setidx', i, V(cnt))
     yield ('getidx', i)
     yield ('delidx', i)
   bounds = [None] + list(range(-L - 1, L + 2)) + ([VAR] if m.has_va else [])
@@ -419,7 +428,7 @@ def sweep_alphabet(m):
         k = len(range(*slice(a_, b_, s).indices(L)))
         for d in (0, 1, -1):
           if k + d >= 0:
-            yield ('setslice', a, b, s, [Sentinel(next(cnt)) for _ in range(k + d)])
+            yield ('setslice', a, b, s, [V(cnt) for _ in range(k + d)])
 
 
 def run_sweep(rng, acc, fns):
@@ -433,7 +442,7 @@ def run_sweep(rng, acc, fns):
     cfg, m, init = initial(rng, fn, cnt)
     # a couple of setup edits so that *args has content
     if m.has_va and rng.random() < 0.8:
-      vs = [Sentinel(next(cnt)) for _ in range(rng.randint(1, 3))]
+      vs = [V(cnt) for _ in range(rng.randint(1, 3))]
       cfg[VAR:] = vs
       m.setslice(VAR, None, None, vs)
     return cfg, m, init
